@@ -302,7 +302,7 @@ PROPS["C09"] = {
     ],
     "parts": [
         {"name": "parents", "mode": "plain", "test": "TestC09",
-         "quick": {"checks": 450, "shards": 6}, "thorough": {"checks": 15000, "shards": 16}},
+         "quick": {"checks": 280, "shards": 6}, "thorough": {"checks": 12000, "shards": 16}},
     ],
 }
 
